@@ -215,7 +215,8 @@ func OracleCancel(prop string, v *View) []Violation {
 		if d.start < 0 || d.start > c.EndSeq {
 			continue
 		}
-		executingAtCancel := d.start <= c.CancelSeq && (d.end < 0 || d.end > c.CancelSeq)
+		// executing when the caller cancelled, or started executing while the run was being shut down
+		executingAtCancel := d.end < 0 || d.end > c.CancelSeq
 		if !executingAtCancel {
 			continue
 		}
@@ -226,6 +227,10 @@ func OracleCancel(prop string, v *View) []Violation {
 		reached := (d.end >= 0 && d.end <= c.EndSeq) || (d.sig >= 0 && d.sig <= c.EndSeq) || (d.ctx >= 0 && d.ctx <= c.EndSeq)
 		if !reached {
 			out = append(out, viol(prop, "plugin-not-reached", "", "plugin %s (deployment %d) was executing when the caller cancelled but saw neither a cancel signal nor a shutdown before Execute returned", d.src, n))
+		} else if d.signal && !(d.sig >= 0 && d.sig <= c.EndSeq) && !(d.end >= 0 && d.end <= c.EndSeq) && d.start < d.close && (d.ctx < 0 || d.start < d.ctx) {
+			// (a handler that only started after its connection had been closed was never really executing)
+			// it has a cancel signal handler, did not finish by itself, and was shut down without being asked to stop
+			out = append(out, viol(prop, "plugin-closed-without-cancel-signal", "", "plugin %s (deployment %d) supports the cancel signal and was executing during the shutdown, but it was closed (decision %d) without ever being sent the signal", d.src, n, d.ctx))
 		}
 	}
 	// every plugin deployed for the run (executing or not) is shut down when the cancelled run returns
@@ -271,6 +276,7 @@ func init() {
 	c06 := []*ir.Profile{
 		{Name: "c06-running", MinSteps: 1, MaxSteps: 4, Durs: []int64{20, 200, 2000, 10000}, PWaitFor: 30, PDeploySlow: 40, PNoSignal: 30, Closure: []int64{0, 10, 5000}, MaxOutputs: 2},
 		{Name: "c06-mixed", MinSteps: 1, MaxSteps: 5, Durs: []int64{0, 5, 100, 3000}, Modes: []string{"err", "crash", "hang"}, PBad: 35, PDeployFail: 10, PDeploySlow: 40, PDisabled: 15, PWaitFor: 30, PNoSignal: 30, Closure: []int64{0, 10, 5000}, MaxOutputs: 2, ErrOutput: true},
+		{Name: "c06-loops", MinSteps: 1, MaxSteps: 3, Durs: []int64{20, 200, 2000}, Foreach: 60, PWaitFor: 20, Closure: []int64{0, 10, 5000}},
 		{Name: "c06-ignore", MinSteps: 1, MaxSteps: 3, Durs: []int64{1000, 10000}, PNoSignal: 20, Closure: []int64{0, 10, 200}, IgnoreCancel: 60},
 	}
 	register(&PropDef{ID: "C06",
